@@ -353,6 +353,33 @@ def inject(ctx):
         cf = P.fns[fl[0][2][1][1]]
         okpred = any(strip(x['expr'])[0] == 'field' and strip(x['expr'])[2] == 'is_base' for x in cf.exits())
     ctx.ob(['C07'], 'R-ITER', 'C07|all-bases', bool(okty and okpred), 'the injection loop visits every region with is_base, in order, enumerated after the filter (iterator %s)' % sty, loc(tdb.term(h)['span']))
+    # the set of names already taken starts with the names of the type's RESOLVED vftable (own or inherited from the first base)
+    td_v = None
+    for x_ in tdb.exits():
+        if x_['kind'] == 'ok_some':
+            for y in walk(x_['expr']):
+                if isinstance(y, tuple) and y[0] == 'agg' and y[1].endswith('type_definition::TypeDefinition'):
+                    td_v = strip(dict(y[2])['vftable'])
+    used = [l_ for l_, nm in tdb.names.items() if re.match(r'^std::collections::(HashSet|BTreeSet)<std::string::String', tdb.local_ty(l_))]
+    ok_used = False
+    det_u = ''
+    if len(used) == 1 and td_v is not None:
+        ini = tdb.init_of(used[0])
+        if len(ini) == 1:
+            e0 = expand(tdb, ini[0])
+            det_u = show(e0)[:160]
+            src_ok = any(strip(y) == td_v for y in walk(ini[0])) or any(strip(y) == expand(tdb, td_v) for y in walk(e0))
+            names_ok = False
+            for y in walk(e0):
+                if isinstance(y, tuple) and y[0] == 'closure' and y[1] in P.fns:
+                    for cf_ in [P.fns[y[1]]] + P.closures_of(P.fns[y[1]]):
+                        for ex_ in cf_.exits():
+                            e1 = expand(cf_, ex_['expr'])
+                            if any(isinstance(z, tuple) and z[0] == 'field' and z[2] == 'functions' for z in walk(e1)) or any(isinstance(z, tuple) and z[0] == 'field' and z[2] == 'name' for z in walk(e1)):
+                                names_ok = True
+            ok_used = src_ok and names_ok
+    ctx.ob(['C07', 'C05'], 'R-SLP', 'C07|taken-names-start-with-resolved-vftable', ok_used,
+           'the set of method names already taken starts with the function names of the type\'s resolved vftable (own block or inherited), the same value that becomes TypeDefinition.vftable: %s' % det_u, where)
     # calls of the add_functions closure
     calls = [c for c in tdb.calls(lambda r: r['block'] in body and r['path'] in P.fns and P.fns[r['path']].kind == 'Closure')]
     addf = {}
